@@ -325,6 +325,10 @@ func GetHtmlMetadata(wrapperElement *HTMLNode, baseUrl string) DocumentMetadata 
 	iter := wrapperElement.Iter(atom.Title, atom.Meta, atom.Link)
 	for iter.HasNext() {
 		element := iter.Next()
+		if element.Namespace != "" {
+			// <title> of an inline <svg> (or MathML) is not document metadata
+			continue
+		}
 		switch element.DataAtom {
 		case atom.Title:
 			if !hasTitle { // the first <title> element, even if empty
